@@ -175,7 +175,7 @@ prop("C15", ["PepitVerif/Props/C15.lean", "PepitVerif/Math/PartitionSem.lean", "
               stream("collect (partition constraints sent)", "collect", 100, 2000, offset=41)],
      direct=[oracle("c15_blocks", 100, 2000)])
 
-prop("C16", ["PepitVerif/Props/C16.lean"],
+prop("C16", ["PepitVerif/Props/C16.lean", "PepitVerif/Props/C16Gen.lean"],
      streams=[stream("resolve (eval / eval_dual before, between and after failed solves)", "resolve", 200, 4000, offset=43),
               stream("flow (failing first solve and invalid option values in _solve_with_wrapper)", "flow", 150, 2000, script="corr_c14.py", offset=79)],
      direct=[oracle("c16_unsolved", 40, 400)])
